@@ -34,17 +34,29 @@ typedef enum {
 #define atomic_load_explicit(addr, order) (*(addr))
 #define atomic_store_explicit(addr, val, order) (*(addr) = (val))
 
-#define atomic_fetch_add(obj, val) (*(obj) += (val))
-#define atomic_fetch_sub(obj, val) (*(obj) -= (val))
-#define atomic_fetch_or(obj, val) (*(obj) |= (val))
-#define atomic_fetch_xor(obj, val) (*(obj) ^= (val))
-#define atomic_fetch_and(obj, val) (*(obj) &= (val))
+// atomic_fetch_<op> yields the value the object held immediately before
+// the update (C11 7.17.7.5). The update is a compare-exchange loop; a
+// failed exchange refreshes __old with the value it found.
+#define __atomic_fetch_op(obj, val, op) ({                             \
+  typeof(obj) __p = (obj);                                             \
+  typeof(*__p) __old = *__p;                                           \
+  typeof(val) __val = (val);                                           \
+  while (!__builtin_compare_and_swap(__p, &__old, __old op __val))     \
+    ;                                                                  \
+  __old;                                                               \
+})
 
-#define atomic_fetch_add_explicit(obj, val, order) (*(obj) += (val))
-#define atomic_fetch_sub_explicit(obj, val, order) (*(obj) -= (val))
-#define atomic_fetch_or_explicit(obj, val, order) (*(obj) |= (val))
-#define atomic_fetch_xor_explicit(obj, val, order) (*(obj) ^= (val))
-#define atomic_fetch_and_explicit(obj, val, order) (*(obj) &= (val))
+#define atomic_fetch_add(obj, val) __atomic_fetch_op(obj, val, +)
+#define atomic_fetch_sub(obj, val) __atomic_fetch_op(obj, val, -)
+#define atomic_fetch_or(obj, val) __atomic_fetch_op(obj, val, |)
+#define atomic_fetch_xor(obj, val) __atomic_fetch_op(obj, val, ^)
+#define atomic_fetch_and(obj, val) __atomic_fetch_op(obj, val, &)
+
+#define atomic_fetch_add_explicit(obj, val, order) __atomic_fetch_op(obj, val, +)
+#define atomic_fetch_sub_explicit(obj, val, order) __atomic_fetch_op(obj, val, -)
+#define atomic_fetch_or_explicit(obj, val, order) __atomic_fetch_op(obj, val, |)
+#define atomic_fetch_xor_explicit(obj, val, order) __atomic_fetch_op(obj, val, ^)
+#define atomic_fetch_and_explicit(obj, val, order) __atomic_fetch_op(obj, val, &)
 
 #define atomic_compare_exchange_weak(p, old, new) \
   __builtin_compare_and_swap((p), (old), (new))
